@@ -70,6 +70,15 @@ CHECKS = {
    technique='bounded-exhaustive lattice over engine types x parameter sets x profiles x masses x iteration counts x 4 entry points against a scalar BADA-3 reference with the same fixed-point iteration and trapezoid rule',
    text='Every lattice case runs the real Bada3FuelBurnModel; mass profiles, thrust regimes and fuel flow are re-derived point by point by an independent scalar reference; two calls on one model object cover history dependence.',
    note='synthetic coefficient sets (licensed OPF data not used); lattice only', ref='DESIGN.md §4 C19'),
+
+ 'C02': dict(cat='exploration', engine='BEX',
+   technique='bounded-exhaustive enumeration of routes x elevations x step-fraction triples x tables x load/mass/iteration settings flown by the real builder, judged by an invariant monitor with an independent geodesic and a resampling reference',
+   text='Every mission of the declared sub-lattices (routes incl. antimeridian/polar/near-antipodal/too-short, elevation pairs around every ceiling boundary, all step triples incl. 50/100-point growth boundaries, masses, iteration settings, four tables) is flown; every returned trajectory is monitored for the bookkeeping rules and resampled at its own and intermediate times.',
+   note='pyproj geodesic (private WGS-84 instance) trusted; use_weather excluded (C16 covers wind); lattice only', ref='DESIGN.md §4 C02'),
+ 'C16': dict(cat='exploration', engine='BEX',
+   technique='bounded-exhaustive enumeration of headings x TAS x wind fields (uniform, multilinear, hourly) x altitudes x positions on harness-written ERA5-shaped files, plus all time-stamp sequences on one Weather object; vector-sum reference',
+   text='Every lattice call of the real Weather.get_ground_speed is compared with the vector sum of airspeed and exactly-interpolable wind; derived clauses (no wind, tail/head wind, rotation invariance, bounds, refusal outside the domain) are judged separately; one open known finding (component exchange, pinned by an existing test) recognised by its exact signature.',
+   note='xarray/scipy interpolation trusted for multilinear fields; lattice only', ref='DESIGN.md §4 C16'),
 }
 NOT_YET = {}
 
